@@ -39,6 +39,7 @@ Definition al_q1 : T := flit 0x1.b8a8d0f62f0bep-2%float (430331482911935 # 10000
 Definition al_q2 : T := flit 0x1.00757a8569046p-4%float (626120363218102 # 10000000000000000).  (* 0.0626120363218102 *)
 Definition al_q3 : T := flit 0x1.c71c71c71c71cp-2%float (4444444444444444 # 10000000000000000). (* 0.4444444444444444 *)
 Definition al_1em13 : T := flit 0x1.c25c268497682p-44%float (1 # 10000000000000).        (* 1e-13 *)
+Definition al_1em14 : T := flit 0x1.6849b86a12b9bp-47%float (1 # 100000000000000).      (* 1e-14 *)
 Definition al_2_25 : T := flit 0x1.2p+1%float (9#4).                                      (* 2.25 *)
 Definition al_2_5em6 : T := flit 0x1.4f8b588e368f1p-19%float (1 # 400000).                (* 2.5e-6 *)
 Definition al_3em2 : T := flit 0x1.eb851eb851eb8p-6%float (3 # 100).                      (* 3e-2 *)
@@ -60,34 +61,45 @@ Definition gl24_half : list (T * T) := gl_tab gl24_half_raw.  (* GAUSS_LEGENDRE_
 Definition line_arclen (l : Line T) : T := v_hypot (pt_sub (l1 l) (l0 l)).
 Definition line_inv_arclen (l : Line T) (s : T) : T := s / v_hypot (pt_sub (l1 l) (l0 l)).
 
-(** ** QuadBez::arclen: closed form with the near-straight and sharp-kink fallbacks *)
+(** ** QuadBez::arclen: closed form with the near-straight and sharp-kink fallbacks.
+    [fixed = false] is the pinned code: [a < 5e-4 * c] and [sabc = (a + b + c).sqrt()].  It returns NaN
+    for a zero-length quadratic (a = c = 0: 0 < 0 fails, then 0^(-1/2) = inf, 0 * inf) and whenever the
+    rounded sum a + b + c (= |p2 - p1|^2 in exact arithmetic) comes out negative, which happens for
+    p2 = p1 and p2 close to p1.  [fixed = true] is what the property requires and what
+    proposed_fixes/C03-quad-arclen-degenerate.diff makes the code do: [a <= 5e-4 * c],
+    [sabc = (a + b + c).max(0.0).sqrt()] and the kink test relative to the scale, [ba_c2 <= 1e-14 * c2]
+    (the pinned absolute test [ba_c2 < 1e-13] lets the rounding noise of [ba_c2] through for
+    collinear control points with large coordinates; the logarithm then sees 0 or a negative
+    number and the result is -inf or NaN). *)
 Inductive quad_branch := QStraight | QKink | QClosed.
 
-Definition quad_arclen_b (q : QuadBez T) : T * quad_branch :=
+Definition quad_arclen_gen (fixed : bool) (q : QuadBez T) : T * quad_branch :=
   let p0 := to_vec2 (q0 q) in let p1 := to_vec2 (q1 q) in let p2 := to_vec2 (q2 q) in
   let d2 := v_add (v_sub p0 (s_scale_v f2 p1)) p2 in
   let a := v_hypot2 d2 in
   let d1 := pt_sub (q1 q) (q0 q) in
   let c := v_hypot2 d1 in
-  if a <? al_5em4 * c then
+  if (if fixed then a <=? al_5em4 * c else a <? al_5em4 * c) then
     let v0 := v_hypot (v_add (v_add (s_scale_v (- al_q0) p0) (s_scale_v al_q1 p1)) (s_scale_v al_q2 p2)) in
     let v1 := v_hypot (v_scale (pt_sub (q2 q) (q0 q)) al_q3) in
     let v2 := v_hypot (v_add (v_sub (s_scale_v (- al_q2) p0) (s_scale_v al_q1 p1)) (s_scale_v al_q0 p2)) in
     (v0 + v1 + v2, QStraight)
   else
     let b := f2 * v_dot d2 d1 in
-    let sabc := fsqrt (a + b + c) in
+    let sabc := if fixed then fsqrt (fmax (a + b + c) f0) else fsqrt (a + b + c) in
     let a2 := fpowf a al_mhalf in
     let a32 := fpowi a2 3 in
     let c2 := f2 * fsqrt c in
     let ba_c2 := b * a2 + c2 in
     let v0 := al_quarter * a2 * a2 * b * (f2 * sabc - c2) + sabc in
-    if ba_c2 <? al_1em13 then (v0, QKink)
+    if (if fixed then ba_c2 <=? al_1em14 * c2 else ba_c2 <? al_1em13) then (v0, QKink)
     else
       (v0 + al_quarter * a32 * (al_4 * c * a - b * b)
             * fln (((f2 * a + b) * a2 + f2 * sabc) / ba_c2), QClosed).
 
+Definition quad_arclen_b (q : QuadBez T) : T * quad_branch := quad_arclen_gen true q.
 Definition quad_arclen (q : QuadBez T) : T := fst (quad_arclen_b q).
+Definition quad_arclen_pinned (q : QuadBez T) : T := fst (quad_arclen_gen false q).
 
 (** ** CubicBez: adaptive Gauss-Legendre quadrature *)
 
